@@ -510,14 +510,15 @@ Definition apply_votes (kind : N) (s : kstate) (vid : N) (h r : N) (ups : pmap) 
 Definition coll_of (e : rentry) (kind : N) : option sparse_coll := if kind =? KPrevote then re_pv e else re_pc e.
 
 Definition handle_future_votes (kind : N) (s : kstate) (m : vmsg) : res (kstate * N) :=
-  let keys_opt := if vm_h m =? v_h (k_vot s) then Some (vs_keys (v_vals (k_vot s)))
-                  else pm_get (st_vals s) (vm_pkh m) in
+  (* only a later round of the voting height has a known validator set *)
+  let keys_opt := if vm_h m =? v_h (k_vot s) then Some (vs_keys (v_vals (k_vot s))) else None in
   match keys_opt with
   | None => Ok (s, HandleVoteProofsFutureUnverified)
   | Some keys =>
       match keys with
       | [] => Ok (s, HandleVoteProofsFutureUnverified)
       | _ =>
+      if negb (bytes_eqb (vm_pkh m) (vs_pkh (v_vals (k_vot s)))) then Ok (s, HandleVoteProofsBadPubKeyHash) else
       let e := rs_entry (st_rounds s) (vm_h m) (vm_r m) in
       let '(spkh, stored) := match coll_of e kind with Some c => c | None => (vm_pkh m, []) end in
       (* stored signatures were verified when they were stored *)
@@ -640,3 +641,30 @@ Definition step (s : kstate) (o : op) : res (kstate * N) :=
   | OpPrevote m => handle_votes KPrevote s m
   | OpPrecommit m => handle_votes KPrecommit s m
   end.
+
+(** * Admissibility of a vote message (used to state C05's no-op clause and by its monitor) *)
+Definition sig_admissible (keys : list N) (kind h r : N) (t : bytes) (ss : ssig) : bool :=
+  match keyid_decode (ss_kid ss) with
+  | Some n => match nth_n keys n with
+              | Some key => verify_vote key kind h r t (ss_sig ss)
+              | None => false
+              end
+  | None => false
+  end.
+
+Definition entry_all_invalid (keys : list N) (kind h r : N) (e : bytes * list ssig) : bool :=
+  forallb (fun ss => negb (sig_admissible keys kind h r (fst e) ss)) (snd e).
+
+Definition msg_all_invalid (keys : list N) (kind : N) (m : vmsg) : bool :=
+  forallb (entry_all_invalid keys kind (vm_h m) (vm_r m)) (vm_proofs m).
+
+(** the key list a message is verified against in state [s] *)
+Definition keys_for (s : kstate) (m : vmsg) : list N :=
+  match find_view (kpos_of s) (vm_h m) (vm_r m) with
+  | Ok (vid, st) =>
+      if st =? ViewFuture then
+        if vm_h m =? v_h (k_vot s) then vs_keys (v_vals (k_vot s)) else []
+      else vs_keys (v_vals (get_view s vid))
+  | Panic _ => []
+  end.
+
